@@ -6,6 +6,7 @@ else (C08), what remains restores (C02)."""
 import asyncio
 import contextlib
 import io
+import json
 import shutil
 from pathlib import Path
 
@@ -144,3 +145,160 @@ def remote_probe(ctx, rep, mine, deployments=DEPLOYMENTS):
             _viol(rep, 'gc_overreach', 'delete + clean removed config or an object outside the chunk and snapshot areas', dep)
         if out['restored'] is not True and 'restore_mismatch' in mine:
             _viol(rep, 'restore_mismatch', f'the remaining snapshot does not restore: {out["restored"]}', dep)
+
+
+def remote_fault_probe(ctx, rep, mine, n=6):
+    """C03 over the remote adapters: from some request on, one kind of request (uploads / deletions / existence checks) is answered
+    with an error for good (401, 403, 500, 503) while a snapshot or a delete runs.  Whatever the command reports, once the service
+    is healthy again every snapshot that is visible must have all its chunks and restore, and a new snapshot + clean must work."""
+    from harness import fakes_http as fk
+    from replicat.repository import Repository
+    for trial in range(n):
+        rng = ctx.rng
+        dep = rng.choice(['b2-by-name', 'b2-by-id', 's3c'])
+        victim = rng.choice(['snapshot', 'snapshot', 'delete'])
+        if dep.startswith('b2'):
+            op = rng.choice(['upload', 'upload', 'get_upload_url', 'head']) if victim == 'snapshot' else rng.choice(['hide_file', 'list_file_names'])
+            kinds = ['401', '401', '500', '503', '403']
+        else:
+            op = rng.choice(['PUT', 'PUT', 'HEAD']) if victim == 'snapshot' else rng.choice(['DELETE', 'LIST'])
+            kinds = ['500', '503', '403', '401']
+        kind = rng.choice(kinds)
+        skip = rng.choice([0, 0, 1, 2, 3, 5])
+        wd = Path(ctx.scratch) / f'remote-fault-{trial}'
+        shutil.rmtree(wd, ignore_errors=True)
+        (wd / 'a').mkdir(parents=True)
+        (wd / 'b').mkdir(parents=True)
+        shared = rng.randbytes(200)
+        (wd / 'a' / 'f').write_bytes(shared + rng.randbytes(300))
+        (wd / 'b' / 'h').write_bytes(rng.randbytes(400) + shared)
+        svc = fk.FakeB2('bkt', page_size=50, piece=64, max_requests=200000) if dep.startswith('b2') else fk.FakeS3('bkt', page_size=50, piece=64, max_requests=200000)
+        out = {}
+
+        def make_backend():
+            if dep.startswith('b2'):
+                from replicat.backends.b2 import B2
+                return B2('bkt' if dep == 'b2-by-name' else svc.bucket_id, key_id='kid', application_key='appkey')
+            from replicat.backends.s3c import S3Compatible
+            return S3Compatible('bkt', key_id='AKIDEXAMPLE', access_key='secret', region='us-east-1', host='s3.example.test', scheme='http')
+
+        async def go():
+            be = make_backend()
+            settings = {'chunking': {'min_length': 32, 'max_length': 64}, 'hashing': {'name': 'blake2b', 'length': 16}, 'encryption': None}
+
+            async def repo():
+                r = Repository(be, concurrent=2, quiet=True, cache_directory=None)
+                await r.unlock()
+                return r
+            await Repository(be, concurrent=2, quiet=True, cache_directory=None).init(settings=settings)
+            sa = await (await repo()).snapshot(paths=[wd / 'a'])
+            known = {sa.location: sa}
+            fault['on'] = True
+            try:
+                if victim == 'snapshot':
+                    sb = await (await repo()).snapshot(paths=[wd / 'b'])
+                    known[sb.location] = sb
+                else:
+                    await (await repo()).delete_snapshots([sa.name], confirm=False)
+                out['outcome'] = 'completed'
+            except Exception as e:
+                out['outcome'] = f'failed ({type(e).__name__})'
+            out['fired'] = fault['fired']
+            fault['on'] = False
+            r = await repo()
+            objs = svc.objects
+            out['visible'] = [loc for loc in objs if loc.startswith('snapshots/')]
+            out['unknown'] = [loc for loc in out['visible'] if loc not in known]
+            out['missing'] = {loc: [c for c in map(r._chunk_digest_to_location, known[loc].chunks) if c not in objs] for loc in out['visible'] if loc in known}
+            (wd / 'out').mkdir()
+            try:
+                await (await repo()).restore(path=wd / 'out')
+                out['restore'] = 'ok'
+            except Exception as e:
+                out['restore'] = f'{type(e).__name__}: {str(e)[:80]}'
+            try:
+                await (await repo()).snapshot(paths=[wd / 'a' / 'f'])
+                await (await repo()).clean()
+                out['after'] = 'ok'
+            except Exception as e:
+                out['after'] = f'{type(e).__name__}: {str(e)[:80]}'
+            await be.close()
+
+        # ONE backend call fails for good: every request that names the (skip+1)-th object touched by `op` is answered with the error,
+        # however often it is repeated; with whole=True every request of that kind is (the service refuses that kind of call)
+        fault = {'on': False, 'target': None, 'seen': [], 'fired': 0}
+        whole = rng.random() < 0.3
+
+        def object_of(request):
+            from urllib.parse import unquote
+            path = unquote(request.url.path)
+            if dep.startswith('b2'):
+                if '/b2_upload_file/' in path:
+                    return 'upload', unquote(request.headers.get('x-bz-file-name', ''))
+                if path.endswith('/b2_hide_file'):
+                    try:
+                        return 'hide_file', json.loads(request.content or b'{}').get('fileName')
+                    except Exception:
+                        return 'hide_file', None
+                if path.startswith('/file/'):
+                    return ('head' if request.method == 'HEAD' else 'download'), path.split('/', 3)[3] if path.count('/') >= 3 else None
+                for nm in ('b2_get_upload_url', 'b2_list_file_names'):
+                    if path.endswith('/' + nm):
+                        return nm[3:], None
+                return None, None
+            key = path[len('/bkt/'):] if path.startswith('/bkt/') else None
+            if request.method == 'GET' and key in (None, ''):
+                return 'LIST', None
+            return request.method, key
+
+        async def handler(request):
+            if fault['on']:
+                o, name = object_of(request)
+                if o == op:
+                    hit = whole or name is None
+                    if not hit:
+                        if name not in fault['seen']:
+                            fault['seen'].append(name)
+                        if fault['target'] is None and len(fault['seen']) == skip + 1:
+                            fault['target'] = name
+                        hit = name == fault['target']
+                    elif whole and name is not None and len(fault['seen']) <= skip:
+                        fault['seen'].append(name)
+                        hit = len(fault['seen']) > skip
+                    if hit:
+                        fault['fired'] += 1
+                        if request.method in ('POST', 'PUT'):
+                            try:
+                                await request.aread()
+                            except Exception:
+                                pass
+                        return svc._fault_response(kind)
+                elif fault['target'] is not None and name == fault['target'] and o in ('head', 'download', 'HEAD', 'GET'):
+                    pass
+            return await svc.handler(request)
+
+        err = None
+        with fk.patched_async_client(handler), fk.VirtualSleep(), contextlib.redirect_stdout(io.StringIO()), contextlib.redirect_stderr(io.StringIO()):
+            try:
+                asyncio.run(asyncio.wait_for(go(), 180))
+            except Exception as e:
+                err = f'{type(e).__name__}: {str(e)[:120]}'
+        what = (f'{victim} while every {op} request from #{skip} on is answered {kind}' if whole else
+                f'{victim} while the {op} call for object #{skip} is answered {kind} for good')
+        rep.case(('remote-fault', dep, victim, op, kind, skip), nontrivial=bool(out.get('fired')))
+        rep.count('remote_fault=' + dep)
+        shutil.rmtree(wd, ignore_errors=True)
+        if err is not None:
+            rep.disagreements.append({'what': f'[{dep}] remote fault probe could not run: {err}', 'replay': {'probe': 'remote_fault'}})
+            continue
+        rep.count('remote_fault_outcome=' + out['outcome'].split(' ')[0])
+        bad = {loc: m for loc, m in out['missing'].items() if m}
+        if bad and 'referenced_chunk_missing' in mine:
+            n_ = sum(len(m) for m in bad.values())
+            _viol(rep, 'referenced_chunk_missing', f'after {what} (the command {out["outcome"]}) a visible snapshot misses {n_} of its chunks: it is listed but cannot be restored', dep)
+        elif out['restore'] != 'ok' and 'restore_mismatch' in mine:
+            _viol(rep, 'restore_mismatch', f'after {what} (the command {out["outcome"]}) restore fails: {out["restore"]}', dep)
+        if out['unknown'] and 'unknown_object' in mine:
+            _viol(rep, 'unknown_object', f'after {what} a snapshot object is visible that no completed command wrote', dep)
+        if out['after'] != 'ok' and 'exception' in mine:
+            _viol(rep, 'exception', f'after {what} the repository is not usable any more (new snapshot + clean): {out["after"]}', dep)
